@@ -130,8 +130,42 @@ def buildOp (req : Json) : R Reply := do
     if checkLangsys p.langsys [] false then .ok (scriptList (build p)) else .error .featureLib
   reachReply i m (← field req "obs")
 
+def asRule : Json → R Rule := asList (asPair asStr asStr)
+def asSubMap : Json → R SubMap := asList (asPair asStr (asList asStr))
+def subMapJ (m : SubMap) : Json := listJ (pairJ Json.str strsJ) m
+
+/-- op "extrasubs": `_pre_compile_designspace`'s extraSubstitutions -/
+def extrasubs (req : Json) : R Reply := do
+  let rules ← asList asRule (← field (← field req "in") "rules")
+  let obs ← asSubMap (← field req "obs")
+  return { model := subMapJ (extraSubs rules), holds := holdsExtra rules obs }
+
+/-- op "classify": the extra_substitutions step of `util.classifyGlyphs` -/
+def classify (req : Json) : R Reply := do
+  let i ← field req "in"
+  let m ← asSubMap (← field i "extras")
+  let sets ← asSubMap (← field i "sets")
+  let obs ← asSubMap (← field req "obs")
+  return { model := subMapJ (classifyExtra m sets), holds := holdsClassify m sets obs }
+
+/-- op "ds": predicate only (the compiled ScriptList of a designspace master against the converse direction) -/
+def dsOp (req : Json) : R Reply := do
+  let i ← field req "in"
+  let d : DsIn := { rules := ← asList asRule (← field i "rules"),
+                    own := ← asSubMap (← field i "own"),
+                    pairs := ← asList (asPair asStr asStr) (← field i "pairs") }
+  let obs ← field req "obs"
+  match ← asOpt asStr (← field obs "err") with
+  | some _ => return { model := Json.mkObj [("fails", Json.arr #[])], holds := false }
+  | none =>
+    let keys ← asList asKey (← field obs "reach")
+    return { model := Json.mkObj [("fails", listJ keyJ (dsFailures d keys))], holds := holdsDs d keys }
+
 def handle (op : String) (req : Json) : R Reply :=
   match op with
+  | "extrasubs" => extrasubs req
+  | "classify" => classify req
+  | "ds" => dsOp req
   | "addrefs" => addrefs req
   | "register" => register req
   | "e2e" => e2e req
